@@ -571,8 +571,15 @@ class CompilerPassGenerateCode(CompilerPass):
                 and not has_early_return
             ):
                 ndata = last_node._ndata
-                sd = self.data.get_sym_data(last_node.func)
-                if sd.is_read != 1 or not self.data.options.inline_functions:
+                if isinstance(last_node.func, nodes.Attribute):
+                    # <module>.<function>: the symbol is kept with the function's data
+                    callee = self.data.functions.get(get_function_name(last_node.func))
+                    sd = callee.sym_data if callee else None
+                else:
+                    sd = self.data.get_sym_data(last_node.func)
+                if sd is not None and (
+                    sd.is_read != 1 or not self.data.options.inline_functions
+                ):
                     apply_tail_call_optimization = True
                     last_op = ndata.code[""][-1]
                     if not last_op.op == "jal":
